@@ -19,7 +19,14 @@ func simTask() (*Sim, *Task) {
 	}
 	t := s.cur()
 	if t == nil {
-		return nil, nil
+		// A goroutine the scheduler did not start (a time.AfterFunc or
+		// context.AfterFunc callback, a goroutine started by library code) has
+		// reached instrumented code: take it under control here, before it
+		// performs the operation, so that its order relative to the other tasks
+		// becomes a choice of the tape.
+		if t = s.adopt(); t == nil {
+			return nil, nil
+		}
 	}
 	return s, t
 }
